@@ -292,8 +292,11 @@ task_reject.contract_fn = "curves.Curve.knot_insert"
 def tasks(tier, seed):
     from ..pyvc.driver import verify
     from ..contracts import kv, misc
+    from ..contracts import curvesv
     ts = [(verify, (misc.INSERT_ONCE, "heavy", "Operations.one_knot_insert_once", None)),
           (verify, (kv.ADD, "heavy", "ImmutableKnotVector.__add__", None))]
+    # shape-level contracts (all curves, all node lists): npts + len(nodes), same degree, INV, refusals atomic, callers meet apply's precondition
+    ts += [(verify, (c, m, q, v)) for c, m, q, v in curvesv.ALL if q in ("Curve.knot_insert", "BaseCurve.apply")]
     for sh in tier_shapes(tier):
         ts.append((task_matrix, (sh, tier)))
         ts.append((task_curve, (sh, False, tier)))
